@@ -207,8 +207,9 @@ def frame_block(spec, lfi, rng, rows=None, n_ch=None, index=None, used=None, max
     fname = name(rng, frame_used, hc=hc)
     if frame_used is not None:
         frame_used.add(fname)
-    if rowbytes + len(fname) + 4 < 12:
-        # writer refuses records shorter than 12 bytes (subject of C15, not applicable): stay inside the domain
+    if rowbytes + len(fname) + 4 < 12 and not (not hc and rng.random() < 0.35):
+        # (records shorter than 12 bytes - writable since fix 29e88f3, padded with several flagged pad bytes - are kept in about a
+        # third of the cases where they arise; otherwise the row is widened)
         nm, rc = recs[-1]
         need = 12 - (len(fname) + 4) - (rowbytes - SIZES[rc['dtype'][1:]] * (rc['shape'][1] if len(rc['shape']) > 1 else 1))
         if len(recs) == 1 and index:
@@ -504,7 +505,7 @@ def failed_attempt(rng, w, path='failed.dlis'):
     return w2
 
 
-def alias_arrays(rng, ops, p=0.1):
+def alias_arrays(rng, ops, p=0.1, keep_cast=False):
     """With probability p make two channels of equal row count share ONE array object (the caller passes the same ndarray twice)."""
     if rng.random() >= p:
         return False
@@ -516,4 +517,6 @@ def alias_arrays(rng, ops, p=0.1):
     lit = a['kwargs']['data']
     lit.setdefault('$share', 'arr%08x' % rng.randrange(1 << 32))
     b['kwargs']['data'] = copy.deepcopy(lit)
+    if not keep_cast:
+        b['kwargs'].pop('cast_dtype', None)      # (a cast chosen as value-preserving for the old array need not be so for the new one)
     return True
